@@ -125,7 +125,7 @@ class C12(core.PropertyCheck):
 
     def gen_yaml(self, rng, path):
         if rng.random() < 0.08:
-            own = "foo" if path.endswith("-a.yaml") else "qux"
+            own = "foo" if path.endswith("-a.yaml") else ("grault" if path.endswith("-c.yaml") else "qux")   # one owner per output key
             return rng.choice(["ref: [unclosed\ncontent: x\n", "- just\n- a list\n", f"ref: {own}\ncontent: |\n  ok\n---\ncontent: no ref here\n...\n"])
         if path.startswith("includes/extracts"):
             # every output key belongs to one source file (hypothesis `owns` of the theorems): two YAML files defining the
@@ -168,6 +168,13 @@ class C12(core.PropertyCheck):
                 docs.append(f"ref: {r}\ncontent: |\n  {body}\n")
             return "---\n".join(docs) + "...\n"
         docs = []
+        if path.endswith("steps-heir.yaml"):
+            # steps taken from steps-setup.yaml, with or without a ref of their own (a step may take its parent's); the parent
+            # file has one to three steps at any time, so the pointer may dangle after an update
+            for i in range(rng.randint(1, 2)):
+                own = f"ref: h{i}\n" if rng.random() < 0.5 else ""
+                docs.append(f"{own}source:\n  file: steps-setup.yaml\n  ref: s{rng.choice([0, 1, 1, 2, 2])}\n")
+            return "---\n".join(docs) + "...\n"
         for i in range(rng.randint(1, 3)):
             docs.append(f"title: Step {self.words(rng, 1)}\nstepnum: {i + 1}\nref: s{i}\ncontent: |\n  {self.words(rng, 3)}\n")
         return "---\n".join(docs) + "...\n"
@@ -223,6 +230,8 @@ class C12(core.PropertyCheck):
                 src["includes/extracts-c.yaml"] = None
         src["code/sample.py"] = None
         src["images/a.png"] = None
+        if kind != "corr" and yaml.endswith("steps-setup.yaml") and rng.random() < 0.6:
+            src["includes/steps-heir.yaml"] = None
         if kind != "corr" and rng.random() < 0.35:
             src["facets.toml"] = None
         for p in list(src):
